@@ -88,8 +88,11 @@ def rnd_int(rng):
     return rng.randint(0, 10 ** rng.randint(1, 30))
 
 
+# characters that exist both in ISO-8859-1 and in JIS X 0208: the order of the text -> bytes policy decides
+LATIN1_JIS = '°±§¶×÷¢£¥¨¬´'
+
 CLASSES = ['digits', 'alnum', 'ascii', 'latin1', 'kana', 'utf8', 'cyr', 'sjis_bytes', 'lead_trail',
-           'hanzi', 'bytes', 'int', 'empty']
+           'hanzi', 'bytes', 'int', 'empty', 'latin1_jis']
 
 
 def content_of(rng, cls, n=None):
@@ -103,6 +106,8 @@ def content_of(rng, cls, n=None):
         return ascii_text(rng, n)
     if cls == 'latin1':
         return latin1_text(rng, n)
+    if cls == 'latin1_jis':
+        return ''.join(rng.choice(LATIN1_JIS) if rng.random() < 0.3 else chr(rng.randint(0x20, 0x7e)) for _ in range(max(n, 1)))
     if cls == 'kana':
         return from_alphabet(rng, max(n // 2, 1), KANA)
     if cls == 'utf8':
